@@ -14,9 +14,14 @@ from .c02 import _decide
 def decoded(proj, clsname, periodic=True):
     """(Disc1D, L, R) with decoded left/right face states of reconstruction `clsname`"""
     D = Disc1D(proj, periodic=periodic)
-    D.fvm("calc_grad")
-    D.fvm("calc_bc_grad")
     ci, num = D.recon(clsname, limiter=phi_axioms(D.alg))
+    # the stages run in the order, and under the conditions, of rhs() for this reconstruction class
+    plan = D.stage_plan(ci)
+    if "interp_face" not in plan:
+        raise AnalysisError("rhs() does not call interp_face for %s" % ci.qualname)
+    for st in plan[:plan.index("interp_face")]:
+        if st in ("calc_grad", "calc_bc_grad"):
+            D.fvm(st)
     L, R = D.interp_face(ci, num)
     if not (isinstance(L, list) and isinstance(R, list) and isinstance(L[0], SArr) and isinstance(R[0], SArr)):
         raise AnalysisError("%s.interp_face does not return lists of face arrays" % ci.qualname)
